@@ -251,6 +251,8 @@ func (x *Exec) evalIdent(env *Env, e *Expr) Value {
 		return Scalar{T: "false", Typ: boolT}
 	case "nil":
 		return Scalar{T: "nil", Typ: types.Typ[types.UntypedNil]}
+	case "empty":
+		return Scalar{T: "$empty", Typ: types.Typ[types.UntypedNil]}
 	}
 	if v, ok := env.lookupVar(e.Name); ok {
 		return v
@@ -628,10 +630,13 @@ func (x *Exec) evalCall(env *Env, e *Expr) Value {
 			c := x.evalBool(env, e.Args[0])
 			a := x.evalExpr(env, e.Args[1])
 			b := x.evalExpr(env, e.Args[2])
-			if _, ok := a.(UntypedInt); ok {
+			_, au := a.(UntypedInt)
+			_, bu := b.(UntypedInt)
+			if au && bu {
+				a, b = x.typed(a, u64T), x.typed(b, u64T)
+			} else if au {
 				a = x.typed(a, valueType(b))
-			}
-			if _, ok := b.(UntypedInt); ok {
+			} else if bu {
 				b = x.typed(b, valueType(a))
 			}
 			return x.iteValue(c, a, b)
@@ -657,6 +662,24 @@ func (x *Exec) evalCall(env *Env, e *Expr) Value {
 			case Ptr:
 				return Scalar{T: s.Base, Typ: types.Typ[types.UnsafePointer]}
 			}
+		case "istype":
+			// istype(x, T): the dynamic type of interface value x is T
+			v := x.evalExpr(env, e.Args[0])
+			ifc, ok := v.(Iface)
+			if !ok {
+				x.fail("istype of %T", v)
+			}
+			t := x.P.resolveType(env.pkg, e.Args[1])
+			return Scalar{T: eq(ifc.Tag, x.typeTag(t)), Typ: boolT}
+		case "ifaceptr":
+			// ifaceptr(x, T): the *T stored in interface value x
+			v := x.evalExpr(env, e.Args[0])
+			ifc, ok := v.(Iface)
+			if !ok {
+				x.fail("ifaceptr of %T", v)
+			}
+			t := x.P.resolveType(env.pkg, e.Args[1])
+			return Ptr{Base: ifc.Ref, Root: t}
 		case "indom":
 			m := x.evalExpr(env, e.Args[0]).(Scalar)
 			mt := m.Typ.Underlying().(*types.Map)
